@@ -4,6 +4,9 @@
    (limit ID WHICH N)                 -> ID within | ID over
    (fieldref ID KINDS N)              -> ID Found I | ID NoSuchField | ID BadIndex | ID Crash
    (alias ID RECURSIVE ((KEY TARGET) ...) NAME) -> ID Expanded NAME' | ID Cycle | ID NoEnd
+   (unknown ID WHO NAME PAYEEHEX ((START END WORDHEX TARGET) ...)) -> ID Registered NAME' | ID NullDeref
+                                         WHO = nopost | noxact | dated; names are ':'-separated words
+   (width ID HEX COLUMNS)             -> ID width=W cut=0/1     (unistring::width as the source adds it up; truncate's test)
    (query ID D K)                     -> ID within | ID over   (K plain terms inside D nested parentheses)
    (div ID (pool (SYMHEX PREC)...) EXPR) -> ID <value as in drv_C03> | ID E:<err>
    (period ID Q N START DATE)         -> ID Ok S | ID Err:<class>
@@ -122,6 +125,22 @@ let handle line =
      | Expanded n -> [id ^ " Expanded " ^ String.concat ":" (List.map (fun z -> Hashtbl.find back (int_of_z z)) n)]
      | Cycle -> [id ^ " Cycle"]
      | NoEnd -> [id ^ " NoEnd"])
+  | L [A "unknown"; A id; A who; A name; A payee; L table] ->
+    let nm s = List.map str_of_string (String.split_on_char ':' s) in
+    let show a = String.concat ":" (List.map string_of_str a) in
+    let maps = List.map (function
+        | L [st; en; A w; A t] -> ({ at_start = batom st; at_end = batom en; word = (if w = "-" then [] else str_of_hex w) }, nm t)
+        | _ -> failwith "unknown table") table in
+    let reg = (match who with
+        | "nopost" -> NoPost | "noxact" -> PostNoXact
+        | "dated" -> PostIn (if payee = "-" then [] else str_of_hex payee) | _ -> failwith "unknown who") in
+    (match register_unknown src_unknown_payee_tests_post_and_xact (nm name) maps reg with
+     | Registered a -> [id ^ " Registered " ^ show a]
+     | NullDeref -> [id ^ " NullDeref"])
+  | L [A "width"; A id; A hex; cols] ->
+    let s = if hex = "-" then [] else str_of_hex hex in
+    [Printf.sprintf "%s width=%s cut=%d" id (string_of_z (ustr_width src_unistring_width_clamps_negative s))
+       (if is_cut src_unistring_width_clamps_negative s (zatom cols) then 1 else 0)]
   | L [A "period"; A id; A q; n; start; date] ->
     (match period_start src_period_zero_guard (quantum_of q) (zatom n) (zatom start) (zatom date) with
      | Ok s -> [id ^ " Ok " ^ string_of_z s]
